@@ -364,7 +364,11 @@ def handle : Handler := fun s =>
       else if fixedAgrees { anonLig := true } then "anon-lig-split"
       else if fixedAgrees { anonLigPrefix := true } then "anon-lig-pooled-longer"
       else if fixedAgrees { anonSingle := true, anonLig := true, anonLigPrefix := true } then "anon-several-defects"
-      else "shape-differs-from-source-semantics"
+      else
+        -- programs outside the modelled subset (only the advisory stream generates them)
+        match wf.filter (fun w => !w.startsWith "anon-") with
+        | w :: _ => "outside-subset-" ++ w
+        | [] => "shape-differs-from-source-semantics"
     let wtags := (if wf.isEmpty then ["in-subset"] else wf.map ("outside-" ++ ·)) ++
       (if skipped.isEmpty then [] else ["lang-unregistered-skipped"]) ++ (if glyphsOnly then ["lang-unregistered-gpos"] else [])
     let detail := if !corr && detail.isEmpty then
